@@ -628,7 +628,7 @@ nng_err
 nni_url_clone_inline(nng_url *dst, const nng_url *src)
 {
 	if (src->u_bufsz != 0) {
-		if ((dst->u_buffer = nni_alloc(dst->u_bufsz)) == NULL) {
+		if ((dst->u_buffer = nni_alloc(src->u_bufsz)) == NULL) {
 			return (NNG_ENOMEM);
 		}
 		dst->u_bufsz = src->u_bufsz;
@@ -668,7 +668,7 @@ nng_url_clone(nng_url **dstp, const nng_url *src)
 	if ((dst = NNI_ALLOC_STRUCT(dst)) == NULL) {
 		return (NNG_ENOMEM);
 	}
-	if ((rv = nni_url_clone_inline(dst, src) != NNG_OK)) {
+	if ((rv = nni_url_clone_inline(dst, src)) != NNG_OK) {
 		NNI_FREE_STRUCT(dst);
 		return (rv);
 	}
